@@ -100,7 +100,8 @@ BuildTok(bs, t, tab, bug) ==
              T1 == New(T, b, N("obj", Last(t.f.segs), t.f, Nil, tab, kind, args))
              T2 == New(T1, Len(T1), N("block", "", NoForm, Nil, tab, "", <<>>)) IN
          [T |-> T2, stack |-> Append(bs.stack, Len(T2))]
-    [] t.k = "decl"  -> [bs EXCEPT !.T = New(T, b, N("obj", Last(t.f.segs), t.f, Nil, tab, t.kind, t.args))]
+    [] t.k = "decl"  -> \* invocations among the operands end up below the object; their names are searched from its scope
+                        [bs EXCEPT !.T = AddCalls(New(T, b, N("obj", Last(t.f.segs), t.f, Nil, tab, t.kind, t.args)), b, CallsOfSeq(t.args), tab)]
     [] t.k = "field" -> LET T1 == New(T, b, N("field", "", t.f, Nil, tab, "", <<>>)) IN
                         [bs EXCEPT !.T = AddUnits(T1, b, ImplUnits(t, 1, 0, t.flags % 16, 0, bug), tab)]
     [] t.k = "stmt"  -> [bs EXCEPT !.T = AddCalls(T, b, CallsOfSeq(t.x), tab)]
